@@ -103,7 +103,7 @@ Definition item_decodes_l (b : block_d) (it : item_d) : Prop :=
 
 Lemma on_msg_inv g x k m : on_msg g x = (k, WMsg m) -> exists xm, x = (k, WMsg xm) /\ g xm = m.
 Proof.
-  destruct x as [kx [y|l|s|xm]]; unfold on_msg; simpl; intros H; try discriminate.
+  destruct x as [kx [y|l|s|xm|fx|fx]]; unfold on_msg; simpl; intros H; try discriminate.
   injection H as -> <-. eauto.
 Qed.
 
